@@ -33,7 +33,7 @@ theorem inv_init (P : Params) : Inv P {} :=
 
 theorem safe_applyMeta (h : Hdr) (kind c rest : Str) : Safe (applyMeta h kind c rest) := by
   intro e he
-  unfold applyMeta at he
+  rw [applyMeta_eq] at he
   repeat' split at he
   all_goals first
     | (cases he; done)
@@ -41,7 +41,7 @@ theorem safe_applyMeta (h : Hdr) (kind c rest : Str) : Safe (applyMeta h kind c 
 
 theorem applyMeta_prefix (h h' : Hdr) (kind c rest : Str) (hm : applyMeta h kind c rest = .ok h')
     (hp : isHist h = true → Prefixed c h.allowed) : isHist h' = true → Prefixed c h'.allowed := by
-  unfold applyMeta at hm
+  rw [applyMeta_eq] at hm
   by_cases c1 : (kind == kwHelp) = true
   · rw [if_pos c1] at hm
     by_cases c2 : h.doc.isSome = true
